@@ -48,6 +48,15 @@ class Callable(object):
             src = 'class C(object):\n    @staticmethod\n    def m(%s):\n        _CALLS.append(1)\n' % sig
             exec(src, self.ns)
             self.obj = self.ns['C']().m
+        elif kind in ('async', 'generator', 'lambda'):
+            # still plain Python functions: binding happens at the call, the body does not run
+            if kind == 'lambda':
+                src = 'P = lambda %s: _CALLS.append(1)\n' % sig
+            else:
+                src = '%sdef P(%s):\n    _CALLS.append(1)\n%s' % ('async ' if kind == 'async' else '', sig,
+                                                                 '    yield\n' if kind == 'generator' else '')
+            exec(src, self.ns)
+            self.obj = self.ns['P']
         elif kind == 'wrapped':
             # a functools.wraps wrapper: its *own* parameter list decides binding, whatever it wraps
             src = ('def INNER(%s):\n    _CALLS.append(1)\n'
@@ -78,7 +87,9 @@ class Callable(object):
         """does obj(*args, **kwds) get past binding?  (calls the stub: it has no effects)"""
         n0 = len(self.calls)
         try:
-            self.obj(*args, **kwds)
+            r = self.obj(*args, **kwds)
+            if hasattr(r, 'close'):
+                r.close()          # a coroutine / generator that is never run
             ok = True
         except TypeError:
             ok = len(self.calls) > n0
@@ -99,7 +110,7 @@ VALS = [1, 'a', None, 2.5, (1, 2)]
 def gen_case(rng, prop='C19'):
     spec = gen_spec(rng)
     kind = rng.choice(['func', 'func', 'method', 'instance', 'func', 'func', 'method', 'instance',
-                       'classmethod', 'classmethod_via_instance', 'staticmethod', 'wrapped'])
+                       'classmethod', 'classmethod_via_instance', 'staticmethod', 'wrapped', 'async', 'generator', 'lambda'])
     case = {'spec': spec, 'kind': kind, 'seed': rng.randrange(1 << 30)}
     if kind == 'wrapped':
         case['wspec'] = gen_spec(rng)
@@ -122,11 +133,43 @@ def gen_case(rng, prop='C19'):
     return case
 
 
-def gen_calls(rng, spec, n=14):
+def gen_calls(rng, spec, n=14, defaults=None, fixed=0, pk=()):
+    """argument lists: half drawn blindly (mostly invalid), half a *valid* spelling of a full assignment, itself
+    perturbed half of the time by one edit (a required argument dropped, one positional too many, a keyword
+    that repeats a positional, an unknown keyword) - the boundary between binding and not binding"""
+    from kv.keymon import assignment, spell
     names = spec_names(spec)
     kwnames = names + [x[0] for x in spec['kwonly']] + ['zz', 'bogus']
     out = []
     for _ in range(n):
+        if defaults is not None and rng.random() < 0.5:
+            sp = dict(spec)
+            if pk:
+                sp['kwonly'] = [x for x in spec['kwonly'] if x[0] not in pk]
+                sp['_pk'] = sorted(pk)
+            asg = assignment(rng, sp, VALS)
+            for nme in list(asg['pos']):
+                if nme in pk or nme in names[:fixed]:
+                    del asg['pos'][nme]
+            asg['defaulted'] = [nme for nme in asg['defaulted'] if nme not in pk]
+            try:
+                args, kwds = spell(rng, sp, asg, defaults, fixed)
+            except Exception:
+                continue
+            args, kwds = list(args), dict(kwds)
+            edit = rng.choice(['none', 'none', 'drop-pos', 'drop-kw', 'extra-pos', 'dup-kw', 'unknown-kw'])
+            if edit == 'drop-pos' and args:
+                args.pop()
+            elif edit == 'drop-kw' and kwds:
+                kwds.pop(rng.choice(sorted(kwds)))
+            elif edit == 'extra-pos':
+                args.append(rng.choice(VALS))
+            elif edit == 'dup-kw' and names[fixed:]:
+                kwds[rng.choice(names[fixed:])] = rng.choice(VALS)
+            elif edit == 'unknown-kw':
+                kwds['bogus'] = 1
+            out.append((args, kwds))
+            continue
         npos = rng.randint(0, len(names) + 2)
         args = [rng.choice(VALS) for _ in range(npos)]
         kwds = {}
@@ -166,7 +209,9 @@ def run_case(case, prop='C19'):
         return viol, cnt, False
     nontrivial = False
     seen_true = seen_false = False
-    for args, kwds in gen_calls(rng, case['spec']):
+    D = dict((n, dec(v)) for n, v in case['spec']['def'])
+    D.update((n, dec(v)) for n, has, v in case['spec']['kwonly'] if has)
+    for args, kwds in gen_calls(rng, case['spec'], defaults=D, fixed=len(tgt.pa), pk=tuple(tgt.pk)):
         real = tgt.real(args, kwds)
         if tgt.bind(args, kwds) != real:
             # known quirk of the second oracle: inspect.signature() of a partial whose target takes **kw drops the
